@@ -123,6 +123,40 @@ def run(chk, prog):
                         "buffers, descriptors, pipes or queues shared between tunnels let bytes of one connection appear in another" % (s["path"], ty[:100]))
     chk.floor("O1", ns, 1, "statics enumerated")
 
+    # BUF: the relay buffer has at least one byte.  copy_half sizes its buffer (and the splice length) from IoParams.buffer_size and
+    # treats a read of 0 bytes as end of stream; a configured size of 0 makes every read return 0, so no byte is ever relayed.
+    # Every store into GlobalState.io_params must sit behind the non-zero side of a test of that field.
+    from .panics import _cmp_facts
+    from ..flow import edge_dominates
+    stores = []
+    for g in prog.fns.values():
+        if g.crate != "redproxy_rs":
+            continue
+        for b in g.reachable:
+            for st in g.stmts(b):
+                if st["k"] == "assign" and "f:io_params" in st["lhs"][1:] and st["rv"]["k"] == "use" and "k" not in st["rv"]["a"]:
+                    stores.append((g, b))
+    uses = [c for c in f.calls if re.search(r"BytesMut::zeroed$", c.path or "")]
+    sized = any("f:buffer_size" in str(f.trace(op_base(c.args[0]))) for c in uses if c.args and op_base(c.args[0]) is not None)
+    chk.floor("BUF", len(stores), 1, "stores into GlobalState.io_params")
+    chk.instance("BUF", "%s:%s" % (f.file, f.line), "copy_half sizes its relay buffer from IoParams.buffer_size", sized, nontrivial=False)
+    for g, sb_ in stores:
+        okb = False
+        for (sb, tb, cop, a, b) in _cmp_facts(g):
+            pa, pb = op_place(a), op_place(b)
+            la = pa and ("f:buffer_size" in pa[1:] or "f:buffer_size" in str(g.trace(pa[0])))
+            lb = pb and ("f:buffer_size" in pb[1:] or "f:buffer_size" in str(g.trace(pb[0])))
+            ca, cb = g.int_of(a), g.int_of(b)
+            nonzero = (la and cb is not None and ((cop in ("Ne", "Gt") and cb == 0) or (cop == "Ge" and cb >= 1))) or \
+                      (lb and ca is not None and ((cop in ("Ne", "Lt") and ca == 0) or (cop == "Le" and ca >= 1)))
+            if nonzero and edge_dominates(g, sb, tb, sb_):
+                okb = True
+        chk.instance("BUF", "%s:%s" % (g.file, g.line), "%s installs io_params only behind a test that buffer_size is not zero" % g.path, okb)
+        if not okb:
+            chk.finding("BUF", g.key, "zero-buffer", "", "%s:%s" % (g.file, g.line),
+                        "%s installs the configured ioParams without refusing bufferSize 0: the relay then reads into an empty buffer, takes the "
+                        "0 bytes it gets for end of stream and closes every tunnel without relaying a byte" % g.path)
+
     # AFD1: tokio's AsyncFd contract -- readiness may be cleared only after the operation reported WouldBlock; clearing it after a
     # partial transfer parks the relay on an edge that never comes (the pipe still holds data)
     shared.rule_afd1(chk, prog)
